@@ -12,7 +12,13 @@ A_QUICK = ['x64', 'x64-all', 'x64-soft-all']
 A_THOROUGH = A_QUICK + ['x64-soft', 'x64-alt1-all', 'x64-alt2-all', 'x64-aesni-all', 'a64', 'a64-all', 'a64-soft-all',
                         'x86-all', 'x86-soft-all', 'x86-alt1-all']
 
+B_QUICK = ['x64', 'x64-all', 'x64-soft-all', 'x64-alt1-all', 'x64-alt2-all']
+B_THOROUGH = B_QUICK + ['x64-soft', 'x64-alt1', 'x64-alt2', 'x64-aesni-all', 'a64', 'a64-all', 'a64-soft-all', 'x86-all',
+                        'x86-soft-all', 'x86-alt1-all']
+
 REGISTRY = {
+    'C12': dict(module='c12', level='other', technique='dominator / provenance dataflow and call-set agreement over MIR (static analysis)',
+                quick=B_QUICK, thorough=B_THOROUGH),
     'C15': dict(module='c15', level='proof', technique='effect / ownership analysis over the whole-program call graph (static analysis)',
                 quick=A_QUICK, thorough=A_THOROUGH),
     'C16': dict(module='c16', level='proof', technique='must-coverage dataflow over drop-glue MIR (static analysis)',
